@@ -79,8 +79,10 @@ Definition build := build_gen true.
 Definition build_old := build_gen false.
 
 (* ---- append ------------------------------------------------------------ *)
-(* [max] = max_file_size.  Data is written at the end of the head file
-   (every path that produces a head handle leaves its cursor at the end). *)
+(* [max] = max_file_size.  Data is written at the end of the head file:
+   Head::write seeks to head.bytes first (since the repair 524040d; before it
+   the write went to the cursor, which retrieve moves — Freezer/Cursor.v makes
+   the cursor explicit and proves it irrelevant for the repaired code). *)
 Definition append (max : nat) (s : st) (x : list N) : st :=
   let roll := Nat.ltb max (hbytes s + length x) in
   let h  := if roll then S (hid s) else hid s in
